@@ -386,10 +386,14 @@ impl Xot {
         if self.next_sibling(reference_node) == Some(new_sibling) {
             return Ok(());
         }
-        self.remove_consolidate_text_nodes(
-            self.previous_sibling(new_sibling),
-            self.next_sibling(new_sibling),
-        );
+        let old_previous = self.previous_sibling(new_sibling);
+        let old_next = self.next_sibling(new_sibling);
+        let consolidated = self.remove_consolidate_text_nodes(old_previous, old_next);
+        // the reference node may have been merged into the text node before it
+        let reference_node = match (consolidated, old_previous) {
+            (true, Some(old_previous)) if old_next == Some(reference_node) => old_previous,
+            _ => reference_node,
+        };
         if self.add_consolidate_text_nodes(
             new_sibling,
             Some(reference_node),
